@@ -1163,7 +1163,7 @@ def _promote(ctx) -> None:
                         v = simplify(v, atoms)
                         # resolve a converter selected into a local: call of a closure term
                         for t in list(subterms(v)):
-                            if t[0] == "call" and t[1][0] == "lam":
+                            if t[0] == "call" and t[1][0] in ("lam", "name") and t[1] not in (("name", "float"), ("name", "complex")):
                                 r = it.call_value(t[1], t[2])
                                 if r is not None:
                                     v = substitute(v, {t: r})
